@@ -265,6 +265,76 @@ static void module_case(uint64_t N, uint64_t a_size, uint64_t dft_size, uint64_t
   case_end(res_size >= 1 && a_size >= 1 && dft_size >= 1);
 }
 
+// the inverse DFT of the NTT120 module fed directly with structured spectra (every 64-bit lane content is a legal
+// input): the int128 result, reduced modulo each prime and transformed forward again (forward transform: checked against
+// the evaluation map above), must be congruent to the spectrum lane by lane. Spectra with zero runs are what pointwise
+// products with a polynomial vanishing on part of the roots look like.
+static void spectrum_case(uint64_t N, int pat, int variant /*0 idft, 1 idft_tmp_a, 2 idft in place*/, uint64_t limbs, unsigned rep) {
+  static const char* const pn[] = {"random", "first-quarter-zero", "only-first-quarter", "alternating-zero", "single-point", "allmax", "second-half-zero", "zero-lanes-of-one-prime"};
+  static const char* const vn[] = {"idft", "idft_tmp_a", "idft(res==a_dft)"};
+  char key[128];
+  snprintf(key, sizeof key, "ntt120:%s|spectrum:%s", vn[variant], pn[pat]);
+  if (!case_begin(key, "N=%" PRIu64 " limbs=%" PRIu64 " rep=%u", N, limbs, rep)) return;
+  rng_t* r = crng();
+  const MODULE* mod = get_module(N, NTT120, 1);
+  const unsigned lg = ilog2(N);
+  gbuf_t gd, gb, gt;
+  uint64_t* dft = gb_alloc(&gd, limbs * N * 32, 32, 0, 4096);
+  __int128* big = variant == 2 ? (__int128*)dft : gb_alloc(&gb, limbs * N * 16, 16, 16 * (rep % 4), 4096);
+  uint8_t* tmp = gb_alloc(&gt, vec_znx_idft_tmp_bytes(mod), 8, 8 * ((rep + 2) % 8), 4096);
+  if (variant != 2) gb_prefill(&gb, 1 + (int)(rep % 3), 2);
+  gb_prefill(&gt, 2, 0);
+  for (uint64_t l = 0; l < limbs; l++)
+    for (uint64_t i = 0; i < N; i++)
+      for (int k = 0; k < 4; k++) {
+        uint64_t v = rng_u64(r);
+        int zero = 0;
+        switch (pat) {
+          case 1: zero = i < (N + 3) / 4; break;
+          case 2: zero = i >= (N + 3) / 4; break;
+          case 3: zero = (i & 1) == ((l + rep) & 1); break;
+          case 4: zero = i != (rep * 7 + l) % N; break;
+          case 5: v = ~0ull; break;
+          case 6: zero = i >= N / 2 && N >= 2; break;
+          case 7: zero = k == (int)((rep + l) & 3); break;
+          default: break;
+        }
+        dft[(l * N + i) * 4 + k] = zero ? 0 : v;
+      }
+  uint64_t* spec = malloc(limbs * N * 32 + 32);
+  memcpy(spec, dft, limbs * N * 32);
+  if (variant == 1) vec_znx_idft_tmp_a(mod, (VEC_ZNX_BIG*)big, limbs, (VEC_ZNX_DFT*)dft, limbs);
+  else vec_znx_idft(mod, (VEC_ZNX_BIG*)big, limbs, (VEC_ZNX_DFT*)dft, limbs, tmp);
+  if (variant == 0 && memcmp(spec, dft, limbs * N * 32)) viol("snapshot", "vec_znx_idft (non-overwriting variant) modified its DFT input");
+  uint64_t* x = malloc(N * 32 + 32);
+  uint64_t nbad = 0;
+  for (uint64_t l = 0; l < limbs; l++) {
+    for (uint64_t i = 0; i < N; i++) {
+      const __int128 v = big[l * N + i];
+      for (int k = 0; k < 4; k++) {
+        __int128 m = v % (__int128)Q120[k];
+        if (m < 0) m += Q120[k];
+        x[4 * i + k] = (uint64_t)m;
+      }
+    }
+    q120_ntt_bb_avx2(NTT[lg][rep & 1], (q120b*)x);
+    uint64_t at;
+    int prime;
+    if (!congruent(N, x, spec + l * N * 4, &at, &prime) && nbad++ < 2)
+      viol("oracle", "NTT120 %s on a spectrum with pattern %s: N=%" PRIu64 " limb %" PRIu64 ": forward transform of the result differs from the spectrum at point %" PRIu64 " prime %d", vn[variant], pn[pat], N, l, at, prime);
+  }
+  long wh;
+  if (gb_check(&gd, &wh) || (variant != 2 && gb_check(&gb, &wh)) || gb_check(&gt, &wh)) viol("canary", "NTT120 idft wrote outside an object (%ld)", wh);
+  cnt("spectrum_limbs_checked", limbs);
+  sample("%" PRIu64 " limbs: forward(result) congruent to the %s spectrum", limbs, pn[pat]);
+  free(x);
+  free(spec);
+  gb_free(&gd);
+  if (variant != 2) gb_free(&gb);
+  gb_free(&gt);
+  case_end(N >= 2);
+}
+
 void run_C03(void) {
   const int th = G.thorough;
   make_tables();
@@ -289,6 +359,26 @@ void run_C03(void) {
           module_case(N, as, ds, rs, (ctr + 1) % 4, 1, 0, 0);
           if ((ctr % 4) == 0) module_case(N, as, ds, rs, (ctr + 2) % 4, 0, 1, 0);
         }
+  }
+  for (size_t ni = 0; ni <= N_ALL_N; ni++) {
+    const uint64_t N = ni < N_ALL_N ? ALL_N[ni] : 1;
+    for (int pat = 0; pat < 8; pat++)
+      for (int v = 0; v < 3; v++)
+        for (unsigned rep = 0; rep < (th ? (N <= 4096 ? 12u : 3u) : 1u); rep++) spectrum_case(N, pat, v, 1 + (uint64_t)((pat + v + rep) % 2), rep);
+  }
+  {
+    q120_ntt_precomp *sn[17], *si[17];
+    for (int k = 0; k <= 16; k++) {
+      sn[k] = NTT[k][0];
+      si[k] = INTT[k][1];
+    }
+    for (unsigned rep = 0; rep < (th ? 300u : 24u); rep++) {
+      if (!case_begin("q120_ntt/intt_bb_avx2|tables-built-concurrently", "threads=%d rep=%u", rep & 1 ? 16 : 4, rep)) continue;
+      uint64_t lanes = q120_concurrent_build_check(rep & 1 ? 16 : 4, crng(), sn, si);
+      cnt("concurrently_built_tables", 2 * (uint64_t)(rep & 1 ? 16 : 4));
+      sample("tables built by concurrent threads: %" PRIu64 " lanes congruent to the sequentially built ones", lanes);
+      case_end(1);
+    }
   }
   free_tables();
 }
